@@ -121,6 +121,9 @@ pub struct Invocation {
     pub verbosity: &'static str,
     /// put `--check` before the subcommand instead of after it (it is a global flag)
     pub check_first: bool,
+    /// also give `-i` on the top level, before the `format-all` subcommand (clap checks flag
+    /// conflicts per command level, so this combination is accepted)
+    pub inplace_first: bool,
 }
 
 impl Invocation {
@@ -145,6 +148,9 @@ impl Invocation {
                 v.extend(style);
             }
             Mode::FormatAll(dir, check) => {
+                if self.inplace_first {
+                    v.push("-i".into());
+                }
                 if *check && self.check_first {
                     v.push("--check".into());
                 }
@@ -637,7 +643,7 @@ impl Model for CliModel {
         let cands = self.file_candidates(tree);
         let lists = ordered_lists(&cands, 3);
         let want_check = self.property == "C14";
-        let inv = |mode: Mode, style: Style, verbosity: &'static str, check_first: bool| Invocation { mode, style, verbosity, check_first };
+        let inv = |mode: Mode, style: Style, verbosity: &'static str, check_first: bool| Invocation { mode, style, verbosity, check_first, inplace_first: false };
         for (si, &style) in styles.iter().enumerate() {
             for l in &lists {
                 // the second style only with lists of <= 2 entries in the quick tier
@@ -672,6 +678,9 @@ impl Model for CliModel {
                 actions.push(inv(Mode::FormatAll(d.clone(), want_check), style, "", false));
                 if want_check && si == 0 {
                     actions.push(inv(Mode::FormatAll(d.clone(), true), style, "", true));
+                }
+                if si == 0 {
+                    actions.push(Invocation { inplace_first: true, ..inv(Mode::FormatAll(d.clone(), want_check), style, "", false) });
                 }
             }
             if want_check {
@@ -947,7 +956,7 @@ fn inv_from_json(v: &Value) -> Option<Invocation> {
         "format-all" => Mode::FormatAll(v.get("dir").and_then(|d| d.as_str()).map(|s| s.to_string()), v.get("check").and_then(|c| c.as_bool()).unwrap_or(false)),
         _ => return None,
     };
-    Some(Invocation { mode, style, verbosity: "", check_first: false })
+    Some(Invocation { mode, style, verbosity: "", check_first: false, inplace_first: false })
 }
 
 // --------------------------------------------------------------------------------------- C16
@@ -976,6 +985,11 @@ fn corpus() -> Vec<(String, Vec<u8>)> {
     add("n_trailing_blank", "text   \n\n\n");
     add("n_crlf", "#let x = 1\r\n#let y  = 2\r\n");
     add("empty", "");
+    // control characters are valid in strings, comments, raw text and markup and must reach stdout unchanged
+    add("ctrl_string", "#let red = \"\u{1b}[31m\"\n#let bell = \"a\u{7}b\u{8}c\u{7f}d\"\n");
+    add("ctrl_comment", "// esc \u{1b}[0m bel \u{7}\n#f( 1 )\n/* vt \u{b} ff \u{c} */\n");
+    add("ctrl_raw_markup", "`a\u{1b}[1mb` text \u{1b}[31mred\u{1b}[0m \u{7f}\n");
+    add("ctrl_erroneous", "#let x = (\"\u{1b}[31m\"\n");
     // tiny sources whose layout still changes between column 0 and 8
     add("tiny_call", "#f(a)\n");
     add("tiny_paren", "#(a)\n#(a,)\n");
@@ -1284,7 +1298,8 @@ pub fn replay(v: &Value, path: &str) -> i32 {
     } else {
         Mode::Inplace(positional)
     };
-    let inv = Invocation { mode, style, verbosity, check_first: argv.first().is_some_and(|a| a == "--check") && argv.iter().any(|a| a == "format-all") };
+    let inv = Invocation { mode, style, verbosity, check_first: argv.first().is_some_and(|a| a == "--check") && argv.iter().any(|a| a == "format-all"),
+        inplace_first: argv.first().is_some_and(|a| a == "-i") && argv.iter().any(|a| a == "format-all") };
     let exp = expected(&tree, &inv);
     let obs = execute(&tree, &inv);
     let diffs = compare(&tree, &inv, &exp, &obs);
